@@ -30,6 +30,16 @@ def ofHexGo (a : ByteArray) : Nat → Bytes → Option Bytes
     | some x, some y => ofHexGo a i (UInt8.ofNat (x * 16 + y) :: acc)
     | _, _ => none
 
+def hexDigitU8 (n : UInt8) : UInt8 := if n < 10 then 48 + n else 87 + n
+
+/-- `toHex` through a byte array (megabyte outputs). -/
+def toHexFast (bs : Bytes) : String :=
+  if bs.isEmpty then "-"
+  else
+    let arr := bs.foldl (fun (a : ByteArray) (b : UInt8) => (a.push (hexDigitU8 (b >>> 4))).push (hexDigitU8 (b &&& 15)))
+      (ByteArray.emptyWithCapacity (2 * bs.length))
+    String.fromUTF8! arr
+
 def ofHexFast (s : String) : Option Bytes :=
   if s == "-" then some []
   else
@@ -51,11 +61,11 @@ def parseMsgs (s : String) : Option (List Message) :=
 
 def showMsgs (ms : List Message) : String :=
   if ms.isEmpty then "-"
-  else ";".intercalate (ms.map fun m => s!"{m.id}:{m.seqNo}:{m.bytes}:{toHex m.body}")
+  else ";".intercalate (ms.map fun m => s!"{m.id}:{m.seqNo}:{m.bytes}:{toHexFast m.body}")
 
 def showOut {α : Type} (o : Out (α × Bytes)) (f : α → String) : String :=
   match o with
-  | .ok (v, r) => "ok " ++ f v ++ " " ++ toHex r
+  | .ok (v, r) => "ok " ++ f v ++ " " ++ toHexFast r
   | .err e => "err " ++ e.tag
   | .panic => "panic"
 
@@ -66,26 +76,26 @@ def handle (line : String) : String :=
   match words line with
   | ["cenc", ms] => match parseMsgs ms with
     | some ms => match encodeContainer ms with
-      | .ok b => toHex b
+      | .ok b => toHexFast b
       | .error e => "err " ++ e.tag
     | none => "bad-op"
   | ["cdec", h] => match ofHexFast h with
     | some b => showOut (decodeContainerP b) showMsgs
     | none => "bad-op"
   | ["renc", id, body] => match id.toInt?, ofHexFast body with
-    | some id, some body => toHex (encodeResult ⟨id, body⟩)
+    | some id, some body => toHexFast (encodeResult ⟨id, body⟩)
     | _, _ => "bad-op"
   | ["rdec", h] => match ofHexFast h with
-    | some b => showOut (decodeResultP b) (fun x => s!"{x.reqMsgID} {toHex x.result}")
+    | some b => showOut (decodeResultP b) (fun x => s!"{x.reqMsgID} {toHexFast x.result}")
     | none => "bad-op"
   | ["uenc", id, d] => match id.toInt?, ofHexFast d with
-    | some id, some d => toHex (encodeUnencrypted ⟨id, d⟩)
+    | some id, some d => toHexFast (encodeUnencrypted ⟨id, d⟩)
     | _, _ => "bad-op"
   | ["udec", h] => match ofHexFast h with
-    | some b => showOut (decodeUnencryptedP b) (fun x => s!"{x.messageID} {toHex x.data}")
+    | some b => showOut (decodeUnencryptedP b) (fun x => s!"{x.messageID} {toHexFast x.data}")
     | none => "bad-op"
   | ["gzenc", c] => match ofHexFast c with
-    | some c => toHex (gzipFrame c)
+    | some c => toHexFast (gzipFrame c)
     | none => "bad-op"
   | ["gzdec", h, n, cl] => match ofHexFast h, n.toNat?, parseBool cl with
     | some b, some n, some cl =>
@@ -95,7 +105,7 @@ def handle (line : String) : String :=
       | .ok (_, rest) =>
         match gunzLimitedLen n cl with
         | .error e => "err " ++ e.tag
-        | .ok _ => s!"ok {n} {toHex rest}"
+        | .ok _ => s!"ok {n} {toHexFast rest}"
     | _, _, _ => "bad-op"
   | ["gzlim", n, cl] => match n.toNat?, parseBool cl with
     | some n, some cl => match gunzLimitedLen n cl with
